@@ -9,6 +9,7 @@ pub open spec fn under(P: Seq<char>, q: Seq<char>) -> bool { q == P || (P + seq!
 pub open spec fn changed_only_under(t1: Tree, t2: Tree, P: Seq<char>) -> bool {
     forall|q: Seq<char>| !under(P, q) ==> (#[trigger] t2.contains_key(q) == t1.contains_key(q)) && (t1.contains_key(q) ==> t2[q] == t1[q])
 }
+#[verifier::rlimit(60)]
 pub proof fn lemma_canonical_concat(P: Seq<char>, q: Seq<char>)
     requires canonical(P), canonical(q)
     ensures canonical(P + q), q.len() > 0 ==> under(P, P + q) && q[0] == '/',
@@ -56,6 +57,7 @@ pub proof fn lemma_under_decompose(P: Seq<char>, x: Seq<char>)
     }
 }
 /// helper: render(a) + "/" prefix of render(b) implies a is a component-prefix of b
+#[verifier::rlimit(60)]
 pub proof fn lemma_under_components(a: Seq<Comp>, b: Seq<Comp>)
     requires all_names(a), all_names(b), (render(a) + seq!['/']).is_prefix_of(render(b))
     ensures exists|q: Seq<char>| canonical(q) && render(b) == render(a) + q
@@ -201,6 +203,7 @@ pub proof fn lemma_changed_at_under(t1: Tree, t2: Tree, P: Seq<char>, d: Seq<cha
     ensures changed_only_under(t1, t2, P)
 {}
 // ---- ancestors in well-formed trees (used for the OverlayFS frame when layers share a filesystem)
+#[verifier::rlimit(60)]
 pub proof fn lemma_under_parent(q: Seq<char>, x: Seq<char>)
     requires canonical(x), x.len() > 0, under(q, x), q != x
     ensures under(q, parent_spec(x))
